@@ -26,6 +26,16 @@ systematic walk -- truncation at every field boundary the writer knows and
 flag byte set to boundary values, trailing garbage, drawn bit flips --
 read back as octets and from a stream that goes on after the object.
 
+Part ``spend`` (C19 only): "a hostile script behind a valid commitment". 1-6
+stored transactions of 1-2 inputs, each spending a p2sh, p2wsh, p2sh-p2wsh or
+p2tr script-path output whose commitment ``btcsim.gen.spends`` computes around
+an arbitrary inner script (random octets; a short sequence over all 256 opcode
+byte values; a valid little script with one byte replaced) and an arbitrary
+initial stack. The transaction is parsed back and handed to
+engine.verify_input / verify_transaction under five flag sets, to
+sig_hash.from_tx, to sizes and ids, and -- as the witness of a BIP322
+signature for the output's address -- to bip322.verify.
+
 Invariants (C05):
   serialize-equals-writer, envelope-equals-writer : the library writes what an independent writer writes
   parse-equals-object, position-after-object      : X.parse(x.serialize()) == x, stream on the byte after it
@@ -95,6 +105,16 @@ PENDING: set[str] = {
     "PsbtOut.serialize/empty-value",
     "PsbtOut.serialize/keydata-06",  # finding D: PSBT_OUT_TAP_TREE written with key data is parsed, the key data is not written back
     "Psbt.serialize/keydata-fb",  # finding D': a second PSBT_GLOBAL_VERSION-typed key (with key data) is parsed and not written back
+    # finding E: from_dict handed JSON values of the wrong type leaves with bare TypeError / AttributeError / IndexError / KeyError
+    "TxOut.from_dict/json-network",  # `network`: [] -> "unhashable type" out of ScriptPubKey.assert_valid
+    "Tx.from_dict/json-network",
+    "Block.from_dict/json-network",
+    "Psbt.from_dict/json-edit",  # the psbt maps: decode_* helpers and assert_valid read the JSON values unguarded
+    "PsbtIn.from_dict/json-edit",
+    "PsbtOut.from_dict/json-edit",
+    "Psbt.serialize/json-edit",  # ... and some (leaf version None / -1, output_index 1.5) pass from_dict and break serialize
+    "PsbtIn.serialize/json-edit",
+    "PsbtOut.serialize/json-edit",
     "var_int.parse/trailing-octets",  # finding C: octets after a whole compact size are ignored
     "var_bytes.parse/trailing-octets",
 }
@@ -326,6 +346,44 @@ def _json(ctx: Ctx, j: Judge, b: go.Built, obj: Any, cv: bool) -> None:
     site = f"{b.name}.from_dict/{cls}"
     ok, back = j.call(site, lambda: codec.from_dict(json.loads(text), cv))
     j.check(P5, "json-round-trip", lambda: ok and back == obj, lambda: f"from_dict(json(to_dict(x))) {'raised ' + repr(back) if not ok else '!= x'} for x = {b.raw.hex()[:300]}", site)
+    if ctx.cfg.get("faults") and cv:
+        _json_walk(ctx, j, b, text, cv)
+
+
+_JSON_EDGES = (None, True, -1, 1 << 64, 1.5, "", "zz", "00", [], {}, [None], {"hex": 1})
+
+
+def _json_walk(ctx: Ctx, j: Judge, b: go.Built, text: str, cv: bool) -> None:
+    """The stored JSON form with one value deleted or replaced by a boundary value of another type."""
+    doc = json.loads(text)
+    slots: list[tuple[Any, Any, str]] = []  # (container, key or index, name of the field it belongs to), in document order
+
+    def visit(node: Any, field: str) -> None:
+        for key in (sorted(node) if isinstance(node, dict) else range(len(node)) if isinstance(node, list) else ()):
+            name = key if isinstance(node, dict) else field
+            slots.append((node, key, name))
+            visit(node[key], name)
+
+    visit(doc, "")
+    if not slots:
+        return
+    step = -(-len(slots) // 12)
+    chosen = slots[ctx.ch.draw(step, "json.phase")::step]
+    ctx.fault("json-edit", b.name, f"n={len(chosen)}")
+    for container, key, field in chosen:
+        saved = container[key]
+        k = ctx.ch.draw(len(_JSON_EDGES) + 1, "json.edge")
+        if k == len(_JSON_EDGES) and isinstance(container, dict):
+            del container[key]
+        else:
+            container[key] = _JSON_EDGES[k % len(_JSON_EDGES)]
+        edited = json.loads(json.dumps(doc))
+        cls = "json-network" if field == "network" and not b.codec.psbt else "json-edit"
+        ok, got = j.call(f"{b.name}.from_dict/{cls}", lambda edited=edited: b.codec.from_dict(edited, cv))
+        ctx.probe("json-edit-" + ("accepted" if ok else "refused"))
+        if ok:
+            j.call(f"{b.name}.serialize/{cls}", lambda got=got: b.codec.ser(got, cv))
+        container[key] = saved
 
 
 def _b64(ctx: Ctx, j: Judge, b: go.Built, obj: Any) -> None:
